@@ -930,6 +930,10 @@ def local_defs(fn):
         elif k == "rangefor":
             if n.get("var") and isinstance(n.get("range"), dict):
                 defs[n["var"]].append(n["range"])
+        elif k == "un" and n.get("op") in ("pre++", "post++", "pre--", "post--"):
+            l = strip_all_casts(n["e"])
+            if l.get("k") == "ref" and l.get("dk") in ("local", "param"):
+                defs[l["decl"]].append(n)
     return defs
 
 
